@@ -55,7 +55,7 @@ def rq(rng, lo=1, hi=5, dens=(1, 2, 3)):
 
 FAMILIES = ["anharmonic", "rabi_matrix", "spin_boson", "holstein", "two_fermions", "ladder",
             "matrix_fd", "operator_mask", "boson_ladder", "ladder_matrix", "ladder_fermion", "spin_fermion",
-            "two_bosons", "three_fermions"]
+            "two_bosons", "three_fermions", "cubic_drive"]
 # (a family with two blocks of IDENTICAL sectors was tried: on the Fock matrices the pairs (0,n)/(1,n) are
 # degenerate eliminated pairs -- never coupled, by a conserved quantity, but ill posed for the matrix
 # reference -- so Trace_SecondQuant skips it; the solver-level check of C16 covers equal sectors)
@@ -93,6 +93,14 @@ def models(rng, sid=None):
         H1 = [[add(*terms) if len(terms) > 1 else terms[0]]]
         return dict(kind=kind, modes=modes, r=1, block=[0], H={0: H0, 1: H1}, rules=[dict(kind="tuple")],
                     scalar=True, fd="default", band=2)
+    if kind == "cubic_drive":
+        # linear and CUBIC drive together: intermediate products a^p (a^dagger)^q with p > q, p != 2q
+        # (a^3 a^dagger, a^3 a^dagger^2 ...) occur from second order on
+        modes = [("boson", "a")]
+        H0 = [[add(mul(scal(w), num(0)), mul(scal(al), pw(num(0), 2)))]]
+        H1 = [[add(herm(mul(scal(g, gi), gen(0))), herm(mul(scal(h, hi), pw(gen(0), 3))))]]
+        return dict(kind=kind, modes=modes, r=1, block=[0], H={0: H0, 1: H1}, rules=[dict(kind="tuple")],
+                    scalar=True, fd="default", band=3)
     if kind == "rabi_matrix":
         modes = [("boson", "a")]
         d = rq(rng, 1, 3, (3, 7))
@@ -431,7 +439,7 @@ def run(pid, tier, seed, replay=None):
     t0 = time.time()
     quick = tier == "quick"
     N = 2 if quick else 3
-    n = 28 if quick else 140
+    n = 30 if quick else 150
     ids = list(range(0, n + 1)) if replay is None else [replay["sid"]]     # sid 0: the known-finding witness
     if replay is not None:
         seed, N = replay["seed"], replay["N"]
